@@ -177,7 +177,8 @@ class PropertyDescriptor(Symbol):
         :param inferred: Whether the relation is inferred or not.
         """
         if domain_value and range_value:
-            for v in make_set(range_value):
+            # not make_set: equal but distinct range values each need their own relation
+            for v in make_list(range_value):
                 PropertyDescriptorRelation(
                     domain_value, v, self.wrapped_field, inferred=inferred
                 ).add_to_graph()
